@@ -1010,10 +1010,13 @@ int asn1_object_identifier_to_octets(const uint32_t *nodes, size_t nodes_cnt, ui
 		error_print();
 		return -1;
 	}
-	if (out) {
-		*out++ = (uint8_t)(nodes[0] * 40 + nodes[1]);
+	// the first two arcs share one subidentifier 40*X + Y with X in {0,1,2} and Y < 40 unless X = 2 (X.690 8.19.4)
+	if (nodes[0] > 2 || (nodes[0] < 2 && nodes[1] >= 40) || nodes[1] > 0xffffffff - 80) {
+		error_print();
+		return -1;
 	}
-	(*outlen) = 1;
+	(*outlen) = 0;
+	asn1_oid_node_to_base128(nodes[0] * 40 + nodes[1], &out, outlen);
 	nodes += 2;
 	nodes_cnt -= 2;
 
@@ -1030,12 +1033,22 @@ int asn1_object_identifier_from_octets(uint32_t *nodes, size_t *nodes_cnt, const
 		return -1;
 	}
 
-	if (nodes) {
-		*nodes++ = (*in) / 40;
-		*nodes++ = (*in) % 40;
+	{
+		uint32_t first;
+		if (asn1_oid_node_from_base128(&first, &in, &inlen) < 0) {
+			error_print();
+			return -1;
+		}
+		if (nodes) {
+			if (first < 80) {
+				*nodes++ = first / 40;
+				*nodes++ = first % 40;
+			} else {
+				*nodes++ = 2;
+				*nodes++ = first - 80;
+			}
+		}
 	}
-	in++;
-	inlen--;
 	*nodes_cnt = 2;
 
 	while (inlen) {
